@@ -15,7 +15,7 @@ import (
 
 func init() {
 	Registry["C05"] = Set{
-		Explanation: "Decides the structural clauses of 'terminates once, with the right reason, finally': T1 every teardown site (unregisterProcess, ProcessTerminate, meta Terminate) is reached only by the single finaliser elected by swap->Terminated with the old value tested, and an outsider finalises only when no runner can exist (typestate + enum value sets, shared with C01.P5); T2 at each teardown site the reason handed to the registry/links and to the terminate callback have the same origin and that origin is the cause (ProcessRun's result, TerminateReasonPanic in recover handlers, TerminateReasonKill on the kill paths); T3 Terminated is absorbing: no CAS expects Terminated/Zombee, a swap that may overwrite Terminated restores it; T4 every MessageExit* arm of the behaviours that return the reason directly (Actor, Pool, WebWorker) returns an error wrapping that message's Reason (ErrNoConnection for node exits) or, when trapping, re-dispatches as a regular message — for MessageExitPID only if the sender is not the parent; T5 every ProcessInit/ProcessRun implementation and the runner install a deferred recover that yields TerminateReasonPanic.",
+		Explanation: "Decides the structural clauses of 'terminates once, with the right reason, finally': T1 every teardown site (unregisterProcess, ProcessTerminate, meta Terminate) is reached only by the single finaliser elected by swap->Terminated with the old value tested, and an outsider finalises only when no runner can exist (typestate + enum value sets, shared with C01.P5); T2 at each teardown site the reason handed to the registry/links and to the terminate callback have the same origin and that origin is the cause (ProcessRun's result, TerminateReasonPanic in recover handlers, TerminateReasonKill on the kill paths); T3 Terminated is absorbing: no CAS expects Terminated/Zombee, a swap that may overwrite Terminated restores it; T4 every MessageExit* arm of the behaviours that return the reason directly (Actor, Pool, WebWorker) returns an error wrapping that message's Reason (ErrNoConnection for node exits) or, when trapping, re-dispatches as a regular message — for MessageExitPID only if the sender is not the parent; T5 every ProcessInit/ProcessRun implementation and the runner install a deferred recover that yields TerminateReasonPanic. Added while probing: T2 for the meta handler the reason's origin set must be exactly {HandleMessage result, HandleCall result, the exit message's reason} (plus the recover constant); T6 after a handler callback no further handler callback is reachable without consulting the state word (a terminated process handles nothing more); T7 unregisterProcess/unregisterSpawnName hand their reason parameter to every fan-out they start.",
 		NotDecided: []string{
 			"that nothing of the process runs afterwards in goroutines the user started",
 			"the supervisor's own exit handling (its state machines; see C08)",
